@@ -5,6 +5,7 @@ package main
 import (
 	"bytes"
 	"fmt"
+	"github.com/hedzr/logg/slog"
 	"strconv"
 	"strings"
 	"time"
@@ -442,4 +443,15 @@ func runC05(r *Run) {
 	r.Extra["records_in_lf_domain"] = inDom
 	r.Extra["records_blank_print"] = blank
 	r.Extra["records_outside_domain"] = outside
+	// the same kind of record in a production process started with DEBUG=1 (see c06DebugEnv): still one line
+	var withErr []EncRec
+	for _, rec := range c06TestingCorpus() {
+		if rec.Cfg.Mode == "logfmt" {
+			withErr = append(withErr, rec)
+		}
+	}
+	snap := slog.VerifSnapshot()
+	encSetup(snap)
+	c06DebugEnv(r, "C05", withErr)
+	resetProcess(snap)
 }
